@@ -286,7 +286,7 @@ def write_turtle(quads, style=None):
         raise ValueError("named graph in Turtle")
     w = _Ttl(st, quads, False)
     lines = w.header() + [""] + w.block([(s, p, o) for s, p, o, _ in quads])
-    eol = st.choice(["\n", "\n", "\r\n"])
+    eol = st.choice(["\n", "\n", "\r\n", "\r"])
     return eol.join(lines) + eol
 
 
@@ -343,7 +343,7 @@ def write_trig(quads, style=None):
         else:
             head = st.choice(["%s {", "GRAPH %s {", "graph %s\n{"]) % w.term(g)
             lines += [head] + w.block(ts, "  ") + ["}"]
-    eol = st.choice(["\n", "\n", "\r\n"])
+    eol = st.choice(["\n", "\n", "\r\n", "\r"])
     return eol.join(lines) + eol
 
 
